@@ -154,7 +154,11 @@ func ext۰bytes۰IndexByte(fr *frame, args []value) value {
 }
 
 func ext۰math۰Float64frombits(fr *frame, args []value) value {
-	return math.Float64frombits(args[0].(uint64))
+	u, ok := args[0].(uint64)
+	if !ok {
+		fr.i.abort("unsupported", "math.Float64frombits of symbolic bits")
+	}
+	return math.Float64frombits(u)
 }
 
 func ext۰math۰Float64bits(fr *frame, args []value) value {
@@ -162,7 +166,11 @@ func ext۰math۰Float64bits(fr *frame, args []value) value {
 }
 
 func ext۰math۰Float32frombits(fr *frame, args []value) value {
-	return math.Float32frombits(args[0].(uint32))
+	u, ok := args[0].(uint32)
+	if !ok {
+		fr.i.abort("unsupported", "math.Float32frombits of symbolic bits")
+	}
+	return math.Float32frombits(u)
 }
 
 func ext۰math۰Abs(fr *frame, args []value) value {
